@@ -48,6 +48,18 @@ CHECKS = {
     note='Trusts z3, the ite encoding in engine/semz3.py, CPython evaluating Model.truth_function on each '
          'tuple, and spec/tables.py as the documented tables (diffed against the code at every run).',
     technique='SMT equivalence checking (z3) of extracted truth tables against a specification'),
+ 'C06': dict(
+    engine=E1, category='model_checking', design='6 C06',
+    text='The real Branch runs under the proxy symbolic executor on every history of appends and copies '
+         'within the bound; constants are built by the real constructor from z3 integers (index 0..3, '
+         'unbounded subscript), worlds are z3 integers; after every step z3 decides, on every live branch, '
+         'that new_constant() differs from every constant of every sentence and new_world() exceeds every '
+         'world. One path per order/equality type of the symbols, so all namings are covered, not samples.',
+    note='Bound: 3 (quick) / 4 (thorough) steps with one-constant sentences, letters at worlds, access '
+         'nodes and copies; 2 / 3 steps when two-constant sentences take part. Stub: lexical __hash__ '
+         'replaced by the type rank during symbolic runs (sound if equal items hash equal, property C14). '
+         'Witness use by rules is asserted in C04. Counterexamples replayed concretely in a fresh process.',
+    technique='proxy-based symbolic execution (pysymex) of Branch.append/copy with z3 path feasibility'),
  'C18': dict(
     engine=E1, category='model_checking', design='6 C18',
     text='The real qset, linqset and Predicates run under the proxy symbolic executor on every operation '
